@@ -993,9 +993,11 @@ class Interp(object):
 
     def ex_Set(self, node, fr, pc):
         items = self.eval_list(node.elts, fr, pc)
-        if all(deep_concrete(x) for x in items):
+        if all(deep_concrete(x) and not is_special(x) for x in items):
             return set(items)
-        raise Unsupported("symbolic set literal")
+        # interpreted objects / symbolic members: membership through the interpreted
+        # __hash__ / __eq__, like set(...)
+        return self.natives.bi_set(self, [SymList([[self.vc.CT, x] for x in items])], {}, self.live(fr, pc))
 
     def eval_list(self, elts, fr, pc):
         out = []
